@@ -133,6 +133,12 @@ def make_lattice(layout):
 def new_term(fr, i, args):
     if len(args) == 1 and isinstance(args[0], Obj) and args[0].cls == "Term":
         return clone(args[0])          # new Term(*T): the copy constructor is checked field by field in C04-R4
+    ini = fr.nodes[i].get("init")
+    ctor = fr.ip.db.callee_fn(fr.nodes[ini]) if ini is not None and fr.nodes[ini]["k"] == "construct" else None
+    if ctor is not None and ctor.body is not None and ctor.body >= 0 and not fr.nodes[ini].get("copy"):
+        # the constructor that is actually called is interpreted on an empty record
+        o = Obj("Term", **{T_ + "N": 0, T_ + "OperatorSequence": [], T_ + "SiteLabels": [], T_ + "Spins": [], T_ + "Orbitals": [], T_ + "Value": sp.Integer(0)})
+        return fr.ip.run_ctor(ctor, args, o)
     if len(args) != 1 or not isinstance(args[0], int):
         fr.bad(i, "new Term(...) with unexpected arguments")
     N = args[0]
